@@ -473,6 +473,15 @@ StopEv ==
   /\ last' = [ev |-> "stop", kind |-> "-", accepted |-> TRUE, u |-> "-"]
   /\ Advance
 
+\* The agent logged that it dropped a datagram of an associated peer at the node's listening socket (the harness then
+\* transmitted the request again): consumed only as the listed known finding F-LISTENER-DROP
+ListenerDropEv ==
+  LET e == Trace[l] IN
+  /\ e.ev = "listenerdrop" /\ Dev("F-LISTENER-DROP")
+  /\ UNCHANGED <<alive, cfg, assoc, pfd, sess, ipHeld, teidHeld, ended, stale, relabel, peerTs, tables, cmds, snap>>
+  /\ chk' = ChkOK /\ last' = [ev |-> "listenerdrop", kind |-> "-", accepted |-> FALSE, u |-> "-"]
+  /\ Advance
+
 \* C10 / C11: the race detector reported a data race in the agent (reduced to the unordered pair of the topmost
 \* repository frames of the two accesses); consumed only if that pair is a listed known finding ("race:<pair>")
 RaceEv ==
@@ -525,9 +534,9 @@ Next == /\ l <= Len(Trace)
            \/ NotInject /\ NotTs /\ ReportEv
            \/ NotInject /\ StartEv
            \/ NotInject /\ NotReport /\ StopEv
-           \/ NotInject /\ NotReport /\ (HbEv \/ AssocEv \/ ReleaseEv \/ LostEv \/ RetransEv \/ PostponeEv \/ RaceEv)
+           \/ NotInject /\ NotReport /\ (HbEv \/ AssocEv \/ ReleaseEv \/ LostEv \/ RetransEv \/ PostponeEv \/ RaceEv \/ ListenerDropEv)
            \/ NotInject /\ NotReport /\ NotTs /\ (EndEv \/ KillEv \/ PfdEv \/ EstabEv \/ ModEv \/ DelEv \/ InjectRespEv)
-        /\ used' = used \cup UsedNow \cup (IF Trace[l].ev = "died" THEN {"crash:" \o Trace[l].site} ELSE {}) \cup (IF Trace[l].ev = "race" THEN {"race:" \o Trace[l].pair} ELSE {})      \* the state BEFORE this step (every trace ends with an "end" line)
+        /\ used' = used \cup UsedNow \cup (IF Trace[l].ev = "died" THEN {"crash:" \o Trace[l].site} ELSE {}) \cup (IF Trace[l].ev = "race" THEN {"race:" \o Trace[l].pair} ELSE {}) \cup (IF Trace[l].ev = "listenerdrop" THEN {"F-LISTENER-DROP"} ELSE {})      \* the state BEFORE this step (every trace ends with an "end" line)
         /\ TLCSet(2, used')
 Spec == Init /\ [][Next]_vars
 \* printed at the end: the listed findings that manifested (the check prints a KNOWN-FINDING line for each)
